@@ -340,7 +340,7 @@ func init() {
 				switch {
 				case strings.HasPrefix(cs, "case *ast.Ident"):
 					nIdent++
-					wantC := regexpMatch(`^case \*ast\.Ident ∧ !\((.+)==nil\) ∧ \((.+)\.Pkg\(\)!=nil\) ∧ \((.+)\.Parent\(\)==(.+)\.Pkg\(\)\.Scope\(\)\) ∧ \((.+)\.Pkg\(\)\.Path\(\)!=recv\.pkg\.PkgPath\)$`, cs)
+					wantC := regexpMatch(`^case \*ast\.Ident ∧ (?:!\((.+)==nil\)|\((.+)!=nil\)) ∧ \((.+)\.Pkg\(\)!=nil\) ∧ \((.+)\.Parent\(\)==(.+)\.Pkg\(\)\.Scope\(\)\) ∧ \((.+)\.Pkg\(\)\.Path\(\)!=recv\.pkg\.PkgPath\)$`, cs)
 					r.Check(wantC, "ident/replaced-iff-foreign-package-scope", cl.Pos(), "replaced exactly when the object is non-nil, has a package, is declared at that package's scope and that package's PATH differs from the destination's — got: %s", cs)
 					wantR := regexpMatch(`^&ast\.SelectorExpr\{X:ast\.NewIdent\(recv\.qualifyImport\((.+)\.Pkg\(\)\.Name\(\),(.+)\.Pkg\(\)\.Path\(\)\)\),Sel:ast\.NewIdent\((.+)\.Name\)\}$`, repl)
 					r.Check(wantR, "ident/replacement", cl.Pos(), "replacement is qualifyImport(pkg.Name(), pkg.Path()).<same name> — got: %s", repl)
@@ -361,7 +361,7 @@ func init() {
 				eq := newEmitter(c, qi)
 				first := qi.returnsOf()[0]
 				gs := qi.Guards(first)
-				r.Check(len(gs) == 1 && eq.sym(gs[0].Expr) == "($1==recv.pkg.PkgPath)" && !gs[0].Neg && types.ExprString(first.Results[0]) == `""`, "qualifyImport/own-package-unqualified", first.Pos(), "the destination package's own objects get an empty qualifier, decided by import path")
+				r.Check(len(gs) == 1 && (eq.sym(gs[0].Expr) == "($1==recv.pkg.PkgPath)" || eq.sym(gs[0].Expr) == "(recv.pkg.PkgPath==$1)") && !gs[0].Neg && types.ExprString(first.Results[0]) == `""`, "qualifyImport/own-package-unqualified", first.Pos(), "the destination package's own objects get an empty qualifier, decided by import path")
 			}
 		})
 }
